@@ -16,6 +16,7 @@ import (
 // Env is everything a check run needs to know about its surroundings.
 type Env struct {
 	VerifDir string // /verif
+	OutDir   string // where evidence/ and replays/ are written (VerifDir unless VERIF_OUT is set)
 	RepoDir  string // /repo
 	SimDir   string // /verif/sim
 	Scratch  string // removed on exit
@@ -90,6 +91,10 @@ func run(dir string, env []string, name string, args ...string) (string, error) 
 func prepare(verifDir, repoDir string) *Env {
 	t0 := time.Now()
 	e := &Env{VerifDir: verifDir, RepoDir: repoDir, SimDir: filepath.Join(verifDir, "sim"), GoBin: "go"}
+	e.OutDir = verifDir
+	if o := os.Getenv("VERIF_OUT"); o != "" {
+		e.OutDir = o
+	}
 	e.Scratch = newScratch()
 	plain := filepath.Join(e.Scratch, "plain")
 	lib := filepath.Join(e.Scratch, "lib")
